@@ -229,6 +229,7 @@ func init() {
 		Rule: "one case = one generated workflow (incl. several leaf branches, a leaf without out-ports, RunTo) under one tape-chosen schedule; liveness = the incarnation reaches RUN-RETURNED (a state with nothing runnable and no timer is a deadlock); safety evaluated on the snapshot the workflow program takes right after Run returns. distinct = distinct event-log hash; non-trivial = >=2 tasks and >=1 non-default choice",
 		Run: func(c *Case) Verdict {
 			var w *WF
+			generated := false
 			switch c.Tape.Choose(simrt.StGen, 8, 0) {
 			case 1:
 				// RunTo through a chain of parameter connections, possibly with a
@@ -260,12 +261,52 @@ func init() {
 					return OK()
 				}
 			default:
+				generated = true
 				w = Generate(c.Tape, tierProfile(profC05, c.Tier))
 				if profC05.RunTo && c.Tape.Choose(simrt.StGen, 4, 0) == 1 {
 					pickRunTo(c.Tape, w)
 				}
 			}
+			pick := c.Tape.Choose(simrt.StGen, 24, 0)
+			if !generated {
+				pick = 0
+			}
+			seenBase := map[string]bool{}
+			for p := range w.Sources {
+				if seenBase[baseName(p)] {
+					pick = 0 // (scratch names are built from base names: they would clash)
+				}
+				seenBase[baseName(p)] = true
+			}
+			switch pick {
+			case 1:
+				// a command that prints a long progress bar (no newline) on its standard
+				// output: more than a pipe and a line buffer hold together
+				for i := range w.Nodes {
+					if n := &w.Nodes[i]; n.Kind == KProc && n.Custom == 0 {
+						n.Say = []int{70000, 140000, 300000}[c.Tape.Choose(simrt.StGen, 3, 0)]
+						c.Fault("chatty-command")
+						break
+					}
+				}
+			case 2:
+				// a command that leaves very many scratch files in its working directory
+				// (they are moved out, then the directory is removed - before Run returns)
+				for i := range w.Nodes {
+					if n := &w.Nodes[i]; n.Kind == KProc && n.Custom == 0 && len(n.Ins) > 0 && !n.Ins[0].Join && len(n.Outs) > 0 && len(n.Extras) == 0 {
+						k := []int{60, 1100}[c.Tape.Choose(simrt.StGen, 2, 0)]
+						for x := 0; x < k; x++ {
+							n.Extras = append(n.Extras, fmt.Sprintf("scratch_%s_{i:%s|basename}/f%04d.tmp", n.Name, n.Ins[0].Name, x))
+						}
+						c.Fault("many-scratch-files")
+						break
+					}
+				}
+			}
 			c.Sample = sample(w)
+			if len(c.Sample) > 3000 {
+				c.Sample = c.Sample[:3000] + "..."
+			}
 			ex := Eval(w)
 			inc := RunInc(w, c.Tape, nil, 0, IncOpts{KillAt: -1, Strategy: strategyOf(c.Tape), Trace: c.Trace})
 			c.Absorb(inc)
